@@ -190,6 +190,9 @@ func driveIterMap(opt *Options) error {
 	for _, total := range []int{255, 256, 257, 65535, 65536, 65537} {
 		driveIterMapWrap(tw, total)
 	}
+	for _, n := range []int{255, 256, 65535, 65536, 65537} {
+		driveIterMapCrowd(tw, n)
+	}
 	storms := 12
 	if opt.N > 200 {
 		storms = 100
@@ -643,5 +646,45 @@ func driveIterMapWrap(tw *TraceWriter, total int) {
 	do(Step{"op": "Next", "i": 1})
 	do(Step{"op": "Next", "i": 1})
 	do(Step{"op": "Close", "i": 1})
+	do(Step{"op": "Len"})
+}
+
+// driveIterMapCrowd: n iterators are open on the oldest entry (created and never used: not logged, nothing observable
+// depends on them), one more is logged; then the oldest entry is removed.  Whatever the implementation counts about
+// its iterators, a count that comes round (2^8, 2^16) must not make First / a new iterator / Len go wrong.
+func driveIterMapCrowd(tw *TraceWriter, n int) {
+	o := newImObj()
+	tw.Emit(map[string]any{"op": "New"})
+	nextID := 1
+	do := func(s Step) bool { return imDo(tw, o, &nextID, s) }
+	do(Step{"op": "Add", "k": "a", "v": nextID})
+	do(Step{"op": "Add", "k": "b", "v": nextID})
+	crowd := make([]iterable.Iterator[iterable.MapEntry[string, int]], 0, n)
+	if p, pv := callPanics(func() {
+		for i := 0; i < n-1; i++ {
+			crowd = append(crowd, o.m.Iterator())
+			o.open++
+		}
+	}); p {
+		tw.Emit(map[string]any{"op": "Iterator", "crash": firstLine(fmt.Sprint(pv))})
+		return
+	}
+	do(Step{"op": "Iterator", "i": 1}) // the n-th
+	do(Step{"op": "Remove", "k": "a"})
+	do(Step{"op": "First"})
+	do(Step{"op": "Len"})
+	do(Step{"op": "Get", "k": "a"})
+	do(Step{"op": "Iterator", "i": 2})
+	do(Step{"op": "Next", "i": 2})
+	do(Step{"op": "Next", "i": 1})
+	do(Step{"op": "Next", "i": 1})
+	do(Step{"op": "Close", "i": 1})
+	do(Step{"op": "Close", "i": 2})
+	do(Step{"op": "First"})
+	for _, it := range crowd {
+		it.Close()
+		o.open--
+	}
+	do(Step{"op": "First"})
 	do(Step{"op": "Len"})
 }
